@@ -1419,8 +1419,19 @@ fn run_source(text: &str) -> Outcome {
             };
         }
     };
-    let d1 = strip_locations(&format!("{:?}", m1));
-    let d2 = strip_locations(&format!("{:?}", m2));
+    // ambiguous nodes of the re-read module are resolved as the type checker does, with the names the first tree uses as
+    // types (a dropped `inline` in front of `T<a> x;` turns the unambiguous declaration into an ambiguous statement);
+    // both trees go through the same rebuilding so that only genuine differences remain
+    let mut types = Vec::new();
+    stmt::type_names_module(&m1.root_definitions, &mut types);
+    let m1r = ast::Module {
+        root_definitions: stmt::resolve_module(&m1.root_definitions, &types),
+    };
+    let m2r = ast::Module {
+        root_definitions: stmt::resolve_module(&m2.root_definitions, &types),
+    };
+    let d1 = strip_locations(&format!("{:?}", m1r));
+    let d2 = strip_locations(&format!("{:?}", m2r));
     if d1 != d2 {
         let at = d1.bytes().zip(d2.bytes()).position(|(a, b)| a != b).unwrap_or(d1.len().min(d2.len()));
         let lo = at.saturating_sub(60);
@@ -1434,7 +1445,7 @@ fn run_source(text: &str) -> Outcome {
             ),
         };
     }
-    match guard(|| rssl_formatter::format(&m2, rssl_formatter::Target::Hlsl)) {
+    match guard(|| rssl_formatter::format(&m2r, rssl_formatter::Target::Hlsl)) {
         Ok(Ok(t2)) if t2 == t1 => Outcome {
             obs: format!("printed {} bytes ==> same tree", t1.len()),
             oracle: "ok".into(),
@@ -1610,6 +1621,7 @@ impl SrcGen {
             3 => t = format!("precise {}", t),
             4 => t = format!("row_major {}", t),
             5 => t = format!("{} const", t),
+            6 if self.rng.chance(1, 3) => t = format!("{} volatile", t),
             _ => {}
         }
         t
@@ -1658,6 +1670,9 @@ impl SrcGen {
             3 => format!("*{}", n),
             4 => format!("&{}", n),
             5 => format!("{}[{}]", n, self.expr(1)),
+            6 if self.rng.chance(1, 3) => format!("* const {}", n),
+            6 if self.rng.chance(1, 2) => format!("* const volatile * {}", n),
+            6 => format!("{} [[vk::a({})]]", n, self.rng.below(9)),
             _ => n,
         }
     }
@@ -1792,7 +1807,7 @@ impl SrcGen {
         }
         let k = self.rng.below(4);
         let params: Vec<String> = (0..k).map(|_| self.param()).collect();
-        let ret = *self.rng.pick(&["void", "float", "float4", "S"]);
+        let ret = *self.rng.pick(&["void", "float", "float4", "S", "inline float", "static inline uint"]);
         s.push_str(&format!("{} {}({})", ret, name, params.join(", ")));
         if self.rng.chance(1, 5) {
             s.push_str(&format!(" : {}", self.semantic()));
